@@ -181,6 +181,9 @@ def State.init : State :=
     aliasSO := [], bos := [], boCount := 0, boBuyer := [], boName := [], boAlias := [],
     al := ⟨[], [], []⟩, bal := [], modBal := 0 }
 
+/-- the state a trace starts from: nothing registered, given params and block time -/
+def State.start (p : Params) (t : Nat) : State := { State.init with now := t, p := p }
+
 abbrev M := Except Err
 
 def chk (c : Bool) (e : Err) : M Unit := if c then .ok () else .error e
@@ -978,6 +981,13 @@ def resolveHandle (s : State) (h : Handle) : Option Chain :=
 def findConfig (d : DymName) (chain : Chain) (path : Path) : Option Addr :=
   (d.configs.find? (sameId · chain path)).map (·.value)
 
+/-- the chain-id the second resolution attempt works with: the translated handle, or the handle
+    itself when it cannot be translated (an untranslatable alias text is no chain-id of the model) -/
+def handleChain (s : State) (h : Handle) : Option Chain :=
+  match resolveHandle s h with
+  | some c => some c
+  | none => (match h with | .chain c => some c | .alias _ => none)
+
 /-- `ResolveByDymNameAddress` for `path.name@handle` (no extra formats) -/
 def resolve (s : State) (path : Path) (n : Name) (h : Handle) : Option Addr :=
   match getNameLive s n with
@@ -989,7 +999,7 @@ def resolve (s : State) (path : Path) (n : Name) (h : Handle) : Option Addr :=
     match first with
     | some v => some v
     | none =>
-      match (match resolveHandle s h with | some c => some c | none => (match h with | .chain c => some c | .alias _ => none)) with
+      match handleChain s h with
       | none => none
       | some c =>
         match findConfig d c path with
@@ -1021,16 +1031,23 @@ def prettyChain (s : State) (c : Chain) : Handle :=
 def liveNames (s : State) (ns : List Name) : List (Name × DymName) :=
   ns.filterMap (fun n => (getNameLive s n).map (fun d => (n, d)))
 
+/-- `reverseResolveDymNameAddressUsingConfiguredAddress`: (path, name) pairs whose record on the
+    working chain has the queried value -/
+def revByConfig (s : State) (addr : Addr) (wc : Chain) : List (Path × Name) :=
+  (liveNames s (s.ns.cfgIdx.lookup addr)).flatMap (fun (n, d) =>
+    (d.revConfigs.filter (fun c => c.value = addr ∧ c.chain = wc)).map (fun c => (c.path, n)))
+
+/-- `fallbackReverseResolveDymNameAddress`: names whose default record has the queried account bytes -/
+def revByFallback (s : State) (addr : Addr) : List (Path × Name) :=
+  (liveNames s (s.ns.fbIdx.lookup addr.acct)).filterMap (fun (n, d) =>
+    if (d.revConfigs.filter (fun c => c.isDefault ∧ c.value.acct = addr.acct)).isEmpty then none else some (0, n))
+
 /-- `ReverseResolveDymNameAddress` for a bech32 input; results before pretty-printing:
     (path, name) pairs, all on the working chain -/
 def reverseRaw (s : State) (addr : Addr) (wc : Chain) : List (Path × Name) :=
-  let byConfig := (liveNames s (s.ns.cfgIdx.lookup addr)).flatMap (fun (n, d) =>
-    (d.revConfigs.filter (fun c => c.value = addr ∧ c.chain = wc)).map (fun c => (c.path, n)))
-  if !byConfig.isEmpty then byConfig
+  if !(revByConfig s addr wc).isEmpty then revByConfig s addr wc
   else if wc ≠ 0 ∧ !isRollapp s wc then []
-  else
-    (liveNames s (s.ns.fbIdx.lookup addr.acct)).filterMap (fun (n, d) =>
-      if (d.revConfigs.filter (fun c => c.isDefault ∧ c.value.acct = addr.acct)).isEmpty then none else some (0, n))
+  else revByFallback s addr
 
 def reverse (s : State) (addr : Addr) (wc : Chain) : List (Path × Name × Handle) :=
   (reverseRaw s addr wc).map (fun (p, n) => (p, n, prettyChain s wc))
